@@ -2272,6 +2272,7 @@ func main() {
 
 	// 8. fork discipline: shallow copies of a trie value share nodes; the untouched value keeps its content (fork.go)
 	h.forkCases()
+	h.refcountCases()
 	h.noteCounts()
 	c.Finish()
 }
